@@ -77,6 +77,7 @@ class PackOracle(FOracle):
         self.pull_snap = {}     # (node, id(pallet)) -> items at the moment the splitter pulled it
         self.waited = False
         self.repacked = False
+        self.carried = {}
 
     def start(self, f):
         self.kinds = {nid: f.node_spec[nid]["type"] for nid in f.nodes}
@@ -85,6 +86,9 @@ class PackOracle(FOracle):
     def on_entry(self, f, e):
         if e.exc is None and e.op == "get":
             nid = f.edge_spec[e.edge]["dst"]
+            if self.kinds[nid] == "Combiner" and isinstance(getattr(e.item, "items", None), list):
+                # what the pallet already carries when the combiner takes it (second packing stage, circular lines)
+                self.carried[(nid, e.k)] = list(e.item.items)
             if self.kinds[nid] == "Splitter":
                 snap = list(e.item.items) if isinstance(getattr(e.item, "items", None), list) else None
                 j = len(self.book.pulls[nid]) - 1      # NodeBook (first oracle) has already recorded this pull
@@ -125,15 +129,16 @@ class PackOracle(FOracle):
                                  "%s pushed %r at t=%s which is not a pallet pulled from its first in-edge" % (nid, obj, t))
                 return
             got = sorted(id(x) for x in snap)
-            exp = sorted(id(x) for (x, ei, tt) in w["ing"])
+            exp = sorted([id(x) for (x, ei, tt) in w["ing"]] + [id(x) for x in self.carried.get((nid, w["k"]), [])])
             per = {}
             for (x, ei, tt) in w["ing"]:
                 per[ei] = per.get(ei, 0) + 1
             want = {i: recipe[i] for i in range(1, n_in) if recipe[i] > 0}
             if got != exp or per != want:
                 self.res.violate(("Combiner", "recipe"),
-                                 "%s pushed pallet %s at t=%s carrying %s; pulled for it per in-edge %s; recipe %s" % (
-                                     nid, obj.id, t, [x.id for x in snap], per, recipe))
+                                 "%s pushed pallet %s at t=%s carrying %s; pulled for it per in-edge %s; recipe %s%s" % (
+                                     nid, obj.id, t, [x.id for x in snap], per, recipe,
+                                     "; it arrived carrying %s" % [x.id for x in self.carried[(nid, w["k"])]] if self.carried.get((nid, w["k"])) else ""))
                 return
             if any(tt > w["t"] for (x, ei, tt) in w["ing"]):
                 self.waited = True
